@@ -1,13 +1,45 @@
 import JsightVerif.Model.Project
+import JsightVerif.Gen.Facts
+import JsightVerif.Props.C12
 /-
-  C01 — building is total (theorems are added below as the layers are proved).
+  C01 — building is total.  What is *proved* here is the scanner layer: for every file and every
+  answer of the schema oracle the scanner never reaches one of its own crash sites that concern
+  its two stacks (the `panic(...)` calls of scanner/step-stack.go, lexeme-event-stack.go,
+  scanner.go shiftFound), and the chains of step functions calling each other for one byte have
+  bounded depth (in Go these are real calls: an unbounded chain is a stack overflow).
+  The remaining crash sites (cursor underflow, slice bounds, everything in core/ and catalog/) and
+  the absence of hangs are decided by the correspondence of ops `scan`, `proj`, `build` with
+  crash-isolated workers; see DESIGN S2.
 -/
 namespace JsightVerif.Props.C01
 open JsightVerif.Model JsightVerif.Gen
 
 /-- every explicit `panic(` site of the scanner package is a modelled fault branch:
-    the model names exactly these sites (pinned against Gen.Facts in C01 facts below) -/
+    the model names exactly these sites (pinned against the regenerated facts) -/
 def modelledScannerPanics : List String :=
   ["eventStack.peek", "LexemeEventType.ToLexemeType", "Scanner.shiftFound", "stepFuncStack.peek"]
+
+theorem scanner_panic_sites_pinned :
+    (panicSites.filter (·.pkg == "scanner")).map (·.fn) = modelledScannerPanics := by decide
+
+/-- **C01 (scanner stacks), every file, every oracle**: a scan never crashes on an empty step
+    stack, an empty event stack or an empty found queue, and never recurses through step functions
+    more than `chainFuel` deep for one byte. -/
+theorem C01_scanner_no_stack_crash (data : Array UInt8) (lenAt : BodyKind → Nat → LenAnswer) (site : String)
+    (h : (scanFile data lenAt).2 = .fault (.panic site)) :
+    site ≠ "stepStack.Pop: Reading from empty stack" ∧ site ≠ "eventStack.Pop: Reading from empty stack"
+      ∧ site ≠ "shiftFound: Empty set of found lexemes" ∧ site ≠ "step function recursion deeper than chainFuel" := by
+  have := C12.C12_scanFile_stack_discipline data lenAt _ h
+  simp only [StackFault, not_or] at this
+  exact this
+
+/-- the same at every intermediate call of `Next`: whatever prefix of the scan has been done -/
+theorem C01_scanner_no_stack_crash_any_fuel (env : Env) (fuel n : Nat) (site : String)
+    (h : (scanFrom env Gen.prog fuel n (Sc.init .stateRoot) []).2.1 = .fault (.panic site)) :
+    site ≠ "stepStack.Pop: Reading from empty stack" ∧ site ≠ "eventStack.Pop: Reading from empty stack"
+      ∧ site ≠ "shiftFound: Empty set of found lexemes" ∧ site ≠ "step function recursion deeper than chainFuel" := by
+  have := C12.C12_stack_discipline env fuel n _ h
+  simp only [StackFault, not_or] at this
+  exact this
 
 end JsightVerif.Props.C01
